@@ -402,9 +402,83 @@ func c15SymlinkCase(r *core.Run, p C15Case, gxz string) {
 	r.Trace(1)
 }
 
+// c15StaleTempCase judges an invocation on one file next to which a stale temporary file of an
+// earlier killed run lies (Files[1], marked "stale:<content id>"). The statement does not say whether
+// gxz refuses or takes the leftover over; either way: an output, if produced, is complete and has no
+// permission bit the input lacks, the exit status is 0 exactly then, and otherwise the input is intact.
+func c15StaleTempCase(r *core.Run, p C15Case, gxz string) {
+	cs := core.MkCase("C15", "invoke", p)
+	dir, err := os.MkdirTemp("", "verif-c15-")
+	if err != nil {
+		panic(err)
+	}
+	defer os.RemoveAll(dir)
+	in, stale := p.Files[0], p.Files[1]
+	raw, ie := c15Content(in.Content)
+	os.WriteFile(filepath.Join(dir, in.Name), raw, os.FileMode(in.Mode))
+	os.Chmod(filepath.Join(dir, in.Name), os.FileMode(in.Mode))
+	sraw, _ := c15Content(stale.Content[len("stale:"):])
+	os.WriteFile(filepath.Join(dir, stale.Name), sraw, os.FileMode(stale.Mode))
+	os.Chmod(filepath.Join(dir, stale.Name), os.FileMode(stale.Mode))
+	argv := p.Argv[0]
+	o, _, _, _ := c15Parse(argv)
+	cmd := exec.Command(gxz, argv...)
+	cmd.Dir = dir
+	var so, se bytes.Buffer
+	cmd.Stdout, cmd.Stderr = &so, &se
+	exit := 0
+	if runErr := cmd.Run(); runErr != nil {
+		ee, ok := runErr.(*exec.ExitError)
+		if !ok {
+			panic("C15: cannot run gxz: " + runErr.Error())
+		}
+		exit = ee.ExitCode()
+	}
+	got := readDir(dir)
+	var problems []string
+	produced := false
+	for name, b := range got {
+		if name == in.Name || name == stale.Name {
+			continue
+		}
+		produced = true
+		ok := false
+		if o.decompress {
+			ok = bytes.Equal(b, ie.plain)
+		} else if out, err := decodeAs(o.format, b); err == nil && bytes.Equal(out, ie.plain) {
+			ok = true
+		}
+		if !ok {
+			problems = append(problems, fmt.Sprintf("%q: not the complete output", name))
+		}
+		if fi, err := os.Stat(filepath.Join(dir, name)); err == nil && uint32(fi.Mode().Perm())&^in.Mode != 0 {
+			problems = append(problems, fmt.Sprintf("%q: mode %o grants bits beyond the input's %o", name, fi.Mode().Perm(), in.Mode))
+		}
+	}
+	if (exit == 0) != produced {
+		problems = append(problems, fmt.Sprintf("exit status %d although output produced=%v", exit, produced))
+	}
+	if b, ok := got[in.Name]; ok && !bytes.Equal(b, raw) {
+		problems = append(problems, "input changed")
+	} else if !ok && (!produced || o.keep) {
+		problems = append(problems, fmt.Sprintf("%q missing", in.Name))
+	}
+	if len(problems) > 0 {
+		sort.Strings(problems)
+		r.Violate(cs, "gxz argv "+c15ArgClass(argv)+" stale-temp → "+c15ProblemClass(problems), fmt.Sprintf("gxz %s in {%s}", strings.Join(argv, " "), c15Files(p.Files)), strings.Join(problems, "; ")+" | stderr: "+firstLine(se.String()), "complete output with at most the input's permission bits, or an untouched input and a non-zero exit status")
+	}
+	r.Eval(core.Hash(strings.Join(argv, "\x00"), c15Files(p.Files), exit))
+	r.Nontrivial(core.Hash(c15ArgClass(argv), "stale-temp", produced))
+	r.Trace(1)
+}
+
 func c15Case(r *core.Run, p C15Case, gxz string) {
 	if len(p.Files) == 2 && strings.HasPrefix(p.Files[1].Content, "symlink:") && len(p.Argv) == 1 {
 		c15SymlinkCase(r, p, gxz)
+		return
+	}
+	if len(p.Files) == 2 && strings.HasPrefix(p.Files[1].Content, "stale:") && len(p.Argv) == 1 {
+		c15StaleTempCase(r, p, gxz)
 		return
 	}
 	cs := core.MkCase("C15", "invoke", p)
@@ -844,6 +918,21 @@ func runC15(r *core.Run) {
 		}
 		for _, opts := range [][]string{{"-d"}, {"-df"}, {"-dkf"}, {"-dc"}, {"-dcf"}} {
 			add([]c15File{{"data.xz", "xz:small", mode}, {"link.xz", "symlink:data.xz", 0}}, append(append([]string{}, opts...), "link.xz"))
+		}
+	}
+	// 3e. a stale temporary file (left by a killed run) with looser permission bits than the input
+	for _, im := range []uint32{0o600, 0o400, 0o640} {
+		for _, sm := range []uint32{0o644, 0o666, 0o600} {
+			for _, opts := range [][]string{{}, {"-f"}, {"-kf"}, {"-F", "lzma", "-f"}} {
+				ext := ".xz"
+				if len(opts) == 3 {
+					ext = ".lzma"
+				}
+				add([]c15File{{"secret", "plain:small", im}, {"secret" + ext + ".compress", "stale:plain:big", sm}}, append(append([]string{}, opts...), "secret"))
+			}
+			for _, opts := range [][]string{{"-d"}, {"-df"}} {
+				add([]c15File{{"secret.xz", "xz:small", im}, {"secret.decompress", "stale:plain:big", sm}}, append(append([]string{}, opts...), "secret.xz"))
+			}
 		}
 	}
 	// 3d. many operands: the exit status is non-zero when 1, 2, 255, 256, 257 or 512 members fail
